@@ -80,9 +80,25 @@ func c20E2E(key string) (lines []string, errText string, panics []string) {
 
 // c20JSON: a log line {"<key>":"v"} read with `| json` (no field list) must expose the value under the sanitised key.
 func c20JSON(key string) (labels map[string]string, errText string, panics []string) {
+	return c20JSONAfter(key, 0)
+}
+
+// c20JSONAfter: the same, after `history` earlier lines of the same query that hold ten other keys each (whatever the
+// stage remembers about keys it has seen must not change how the next key is named).
+func c20JSONAfter(key string, history int) (labels map[string]string, errText string, panics []string) {
 	doc, _ := json.Marshal(map[string]string{key: "v"})
+	var recs []fakedocker.Rec
+	for h := 0; h < history; h++ {
+		m := map[string]string{}
+		for k := 0; k < 10; k++ {
+			m[fmt.Sprintf("h%d_%d", h, k)] = "x"
+		}
+		line, _ := json.Marshal(m)
+		recs = append(recs, fakedocker.Rec{Stream: 1, TS: fakedocker.TS(int64(h+1) * 1e6), Msg: string(line)})
+	}
+	recs = append(recs, fakedocker.Rec{Stream: 1, TS: fakedocker.TS(1 * sec), Msg: string(doc)})
 	fake := fakedocker.New([]fakedocker.Container{{ID: "c", Name: "/c", Image: "img", State: "running", Labels: map[string]string{},
-		Log: fakedocker.Encode([]fakedocker.Rec{{Stream: 1, TS: fakedocker.TS(1 * sec), Msg: string(doc)}})}})
+		Log: fakedocker.Encode(recs)}})
 	s := vsched.RunMain(vsched.NewCtx(nil), func() {
 		q, _ := dockerlog.NewQuerier(fake)
 		data, err := newEngine(q).Eval(context.Background(), `{} | json`, logqlengine.EvalParams{Start: 0, End: otelstorage.Timestamp(3 * sec), Step: time.Second, Limit: -1})
@@ -92,6 +108,9 @@ func c20JSON(key string) (labels map[string]string, errText string, panics []str
 		}
 		if data.Type == lokiapi.StreamsResultQueryResponseData {
 			for _, st := range data.StreamsResult.Result {
+				if len(st.Values) == 0 || st.Values[0].V != string(doc) {
+					continue // a line of the history
+				}
 				labels = map[string]string{}
 				for k, v := range st.Stream.Value {
 					labels[k] = v
@@ -143,9 +162,16 @@ func c20Check(r *vkit.Run, in c20Input) {
 	case len(lines) != 1 || lines[0] != "from-carrier":
 		r.Fail("C20/e2e", in, nil, lines, []string{"from-carrier"}, fmt.Sprintf("selector {%s=\"v\"} must select exactly the container carrying Docker label %q=v", got, key), "")
 	}
-	// the JSON-key side: only for keys JSON can carry verbatim
-	if utf8.ValidString(key) && got != "msg" {
-		labels, jerr, jp := c20JSON(key)
+	// the JSON-key side: only for keys JSON can carry verbatim (dictionary keys also after 150 and 300 other keys)
+	histories := []int{0}
+	if len(key) > 4 || strings.ContainsAny(key, "./-") {
+		histories = []int{0, 15, 30}
+	}
+	for _, hist := range histories {
+		if !utf8.ValidString(key) || got == "msg" {
+			break
+		}
+		labels, jerr, jp := c20JSONAfter(key, hist)
 		r.Eval()
 		switch {
 		case len(jp) > 0:
@@ -157,7 +183,7 @@ func c20Check(r *vkit.Run, in c20Input) {
 		default:
 			for k := range labels {
 				if !validName.MatchString(k) {
-					r.Fail("C20/json", in, nil, labels, nil, fmt.Sprintf("`| json` exposed the invalid label name %q for key %q", k, key), "")
+					r.Fail("C20/json", in, nil, labels, nil, fmt.Sprintf("`| json` exposed the invalid label name %q for key %q (after %d earlier lines)", k, key, hist), "")
 					break
 				}
 			}
@@ -175,7 +201,8 @@ func init() {
 }
 
 func c20Run(r *vkit.Run) {
-	syms := []string{"a", "Z", "0", "9", "_", ".", "-", "/", " ", "é", "世", "\xff", "\xc3"}
+	// (the characters between 'Z' and 'a' and around the digit and letter ranges are there for range-based tests)
+	syms := []string{"a", "Z", "0", "9", "_", ".", "-", "/", " ", "é", "世", "\xff", "\xc3", "[", "^", "`", "@", "{", ":"}
 	maxLen := 4
 	if r.Thorough() {
 		maxLen = 5
@@ -225,7 +252,7 @@ func c20Run(r *vkit.Run) {
 			r.State(k)
 		}
 	}
-	r.Note("bounds", fmt.Sprintf("all strings of length 1..%d over 13 symbols (letters, digits, _, ., -, /, space, 2- and 3-byte runes, invalid bytes); end-to-end selection through Engine.Eval for every key of length <=3 and a %d-key dictionary incl. all LogQL keywords", maxLen, len(dict)))
+	r.Note("bounds", fmt.Sprintf("all strings of length 1..%d over 19 symbols (letters, digits, _, ., -, /, space, 2- and 3-byte runes, invalid bytes); end-to-end selection through Engine.Eval for every key of length <=3 and a %d-key dictionary incl. all LogQL keywords", maxLen, len(dict)))
 }
 
 func c20Replay(r *vkit.Run, v vkit.Violation) *vkit.Violation {
